@@ -143,6 +143,20 @@ func (w *world) apply(kind string, o sop) bool {
 				viol("append-failed", "", err.Error())
 				return false
 			}
+		case "append-scoped":
+			// Append with a request-scoped context: live during the call, cancelled as soon as it
+			// has returned. An ordinary successful append; whatever the store keeps from it must
+			// not die with that context (the appends after it work)
+			sctx, scancel := context.WithCancel(bg)
+			i := len(w.log) + 1
+			ev := &eventbus.Event{Type: "t", Data: json.RawMessage(fmt.Sprintf(`{"i":%d}`, i)), Timestamp: time.Unix(1700000000+int64(i), int64(i)).UTC()}
+			off, err := w.hd.Store.Append(sctx, ev)
+			scancel()
+			if err != nil {
+				viol("append-failed", "", "Append with a live request-scoped context: "+err.Error())
+				return false
+			}
+			w.log = append(w.log, entry{off, ev.Type, string(ev.Data), ev.Timestamp})
 		case "append-cancelled":
 			// Append with an already-cancelled context: a store may refuse it (then the log
 			// is unchanged) or ignore the context (then the event is in the log); whatever
@@ -389,14 +403,53 @@ func (w *world) battery() (queries int) {
 // saved, the store is reopened, extended once more and queried again.
 func (w *world) closing(kind string) (q int) {
 	L := len(w.log) - 1
-	if w.apply(kind, sop{K: "append"}) && w.apply(kind, sop{K: "append"}) {
+	if w.apply(kind, sop{K: "append-scoped"}) && w.apply(kind, sop{K: "append"}) {
 		L += 2
 		q += w.battery()
+		q += w.scribble()
 		if w.apply(kind, sop{K: "save", ID: "a", Pos: L}) && w.apply(kind, sop{K: "reopen"}) && w.apply(kind, sop{K: "append"}) {
 			q += w.light()
 		}
 	}
 	return q
+}
+
+// scribble: what Read hands out is the caller's. The caller reverses its page, overwrites
+// an element, appends to it - and the log is what it was: a store must not hand out (a
+// window of) its own backing array.
+func (w *world) scribble() (queries int) {
+	if len(w.log) < 2 || strings.HasPrefix(w.kind, "durable") { // (one chunk per read there: the full battery reports that)
+		return 0
+	}
+	sentinel := &eventbus.StoredEvent{Offset: "scribbled", Type: "caller-marker", Data: json.RawMessage(`"x"`)}
+	for _, lim := range []int{0, 1, len(w.log) - 1} {
+		for _, from := range []eventbus.Offset{eventbus.OffsetOldest, w.log[0].off} {
+			page, _, err := w.hd.Store.Read(bg, from, lim)
+			queries++
+			if err != nil || len(page) == 0 {
+				continue
+			}
+			for i, j := 0, len(page)-1; i < j; i, j = i+1, j-1 {
+				page[i], page[j] = page[j], page[i]
+			}
+			page = append(page, sentinel)
+			page[0] = sentinel
+			_ = append(page[:0], sentinel, sentinel)
+		}
+	}
+	evs, _, err := w.hd.Store.Read(bg, eventbus.OffsetOldest, 0)
+	queries++
+	if err != nil || len(evs) != len(w.log) {
+		w.viol("caller-memory", "after a caller modified the slices Read had returned, the log has another length", fmt.Sprintf("%d events (err %v), want %d", len(evs), err, len(w.log)))
+		return queries
+	}
+	for i, e := range evs {
+		if d := w.same(e, w.log[i], false); d != "" {
+			w.viol("caller-memory", "after a caller modified the slices Read had returned (reversed, overwritten, appended to), the log itself changed", fmt.Sprintf("event %d: %s", i, d))
+			break
+		}
+	}
+	return queries
 }
 
 // overlappingStreams: a stream the consumer abandons, a stream whose context is cancelled
